@@ -98,14 +98,19 @@ class ActionContext(abc.ABC):
             logging.exception("Error evaluating watch %s", watch)
             return WatchResult(source, watch, None, str(e)), {}, str(e)
 
-    def process_capture_variable(self, name: str, variable: any) -> Tuple[WatchResult, Dict[str, Variable], str]:
+    def process_capture_variable(self, name: str, variable: any, later: bool = False) \
+            -> Tuple[WatchResult, Dict[str, Variable], str]:
         """
         Process a captured variable (exception or return), into a variable set.
 
         :param name: the name to use (raised or returned)
         :param variable: the value to process
+        :param later: the value is captured at a later event than the rest of the snapshot was collected at
         :return: Tuple with WatchResult, collected variables, and the log string for the expression
         """
+        if later:
+            # what we have seen of this value then is not what it is now
+            self.var_cache = self.var_cache.continued()
         var_processor = VariableSetProcessor({}, self.var_cache, self.collection_config)
         variable_id, log_str = var_processor.process_variable(name, variable)
         if variable_id.vid is None:
